@@ -30,7 +30,7 @@ DESIGN_REF = "DESIGN.md §4 C09"
 import importlib.util as _ilu, os as _os
 _sp14 = _ilu.spec_from_file_location("spec_C14_for_C09", _os.path.join(_os.path.dirname(__file__), "C14.py"))
 _m14 = _ilu.module_from_spec(_sp14); _m14.H = H; _sp14.loader.exec_module(_m14)
-for _h in _m14.mk("quick", 8, 3, 3, 1200, which=(1,)):
+for _h in _m14.mk("quick", 9, 2, 5, 1200, which=(1,)):
     _h["name"] = _h["name"].replace("C14.", "C09.")
     _h["tiers"] = ("quick", "thorough")
     _h["desc"] = "lp_init seeds each LP's stream with its GLOBAL identifier (not a thread- or rank-local index) and keeps the state in rollbackable memory (bounded configuration box)"
